@@ -188,6 +188,21 @@ func genC03(r *h.Rng, tier string, idx int) *h.Plan {
 			p.Ops = append(p.Ops, h.Op{K: "reload"})
 		}
 	}
+	// hand-made shapes next to the generated trees: `not` behind an `or` whose
+	// disjuncts bind different variables (the incoming bindings of the `not`
+	// then have different variable sets, the first of them possibly none)
+	pat := func(k, v string) map[string]interface{} {
+		return map[string]interface{}{"pattern": map[string]interface{}{k: v}}
+	}
+	shapes := []map[string]interface{}{
+		{"and": []interface{}{map[string]interface{}{"or": []interface{}{pat("p", "?x"), pat("q", "?y")}}, map[string]interface{}{"not": pat("r", "?y")}}},
+		{"and": []interface{}{map[string]interface{}{"or": []interface{}{pat("p", "?x"), pat("q", "?y")}}, map[string]interface{}{"not": pat("r", "?x")}}},
+		{"and": []interface{}{map[string]interface{}{"or": []interface{}{map[string]interface{}{}, pat("q", "?y")}}, map[string]interface{}{"not": pat("p", "?y")}}},
+		{"and": []interface{}{map[string]interface{}{"or": []interface{}{pat("q", "?y"), pat("p", "?x"), pat("r", "?y")}}, map[string]interface{}{"not": map[string]interface{}{"and": []interface{}{pat("p", "?y")}}}}},
+	}
+	if r.Bool() {
+		p.Ops = append(p.Ops, h.Op{K: "querytree", Loc: "L", J: shapes[r.Intn(len(shapes))]})
+	}
 	nq := 10
 	for i := 0; i < nq; i++ {
 		g.bound = nil
